@@ -9,7 +9,7 @@ Import ListNotations.
 Open Scope N_scope.
 Local Open Scope out_scope.
 
-Record nal := mkNal { ntype : N; nlayer : N; nfirst : bool; npoc : N; ndata : list N }.
+Record nal := mkNal { ntype : N; nlayer : N; nfirst : bool; npoc : N; nstype : N; ndata : list N }.
 
 Definition is_slice_type (t : N) : bool := (t <=? 9) || ((16 <=? t) && (t <=? 21)).
 Definition is_irap (t : N) : bool := (16 <=? t) && (t <=? 23).
